@@ -210,16 +210,6 @@ func VerifC05Prune(dir string, grace time.Duration, probe, now time.Time, locker
 }
 
 
-// VerifC05Upstream returns the table files |store| currently relies on
-// (NomsBlockStore.upstreamReferences), as PruneUnreferencedWithGrace snapshots them.
-func VerifC05Upstream(store *NomsBlockStore) []string {
-	var out []string
-	for h := range store.upstreamReferences() {
-		out = append(out, h.String())
-	}
-	return out
-}
-
 // VerifC05Call is one manifestUpdater.Update call made by conjoinOperation.updateManifest.
 type VerifC05Call struct {
 	Last   string
